@@ -760,15 +760,24 @@ def check_C38(rep):
     clean, witness = [], []
     # (1) every cycle offset around every link-command transmission of the base scenarios
     for name, script, stall_p in rx_base_scenarios():
-        for variant in range(1 if quick else 3):
+        for variant in range(3):
             seed = rep.seed * 1000 + variant
             import random
             tr0, info0 = bench.run(script, random.Random(seed), stall_p=stall_p)
             clean.append((tr0, {"origin": "base", "scenario": name, "variant": variant}))
+            # quick tier: all crash points for variant 0; for the other stall patterns only the (rare) points where
+            # the dispatcher is idle while an LGOOD is still owed (witnesses of C38-link-down-with-unsent-lgood)
+            only_unsent = quick and variant > 0
+            if only_unsent and stall_p == 0.0:
+                continue
             for c in rx_crash_points(info0, every=5 if quick else 2):
+                if only_unsent and (in_command(info0["tx"], c) or lgood_unsent(tr0, c - 1) == 0):
+                    continue
                 kinds = [(False, 0), (True, 1)] if quick else [(False, 0), (True, 1), (True, 4)]
                 if quick and not in_command(info0["tx"], c):
                     kinds = [kinds[c % 2]]
+                if lgood_unsent(tr0, c - 1) > 0 and not in_command(info0["tx"], c):
+                    kinds = [(False, 0)] + [k for k in kinds if k[0]]
                 for reset, rl in kinds:
                     tail = [("wait", MIN_DOWN + (c % 7))] + RX_TAIL
                     tr, info = bench.run(script, random.Random(seed), crash=(c, reset, rl, tail), stall_p=stall_p)
